@@ -554,8 +554,9 @@ func portableDecoderRulesImpl(c *Check, prefix string) {
 		var def ssa.Instruction
 		allInstrs(fn, func(in ssa.Instruction) {
 			if d, ok := in.(*ssa.Defer); ok {
-				if mc, isMC := d.Call.Value.(*ssa.MakeClosure); isMC {
-					for _, f := range withAnon(mc.Fn.(*ssa.Function)) {
+				// a function literal, or a named function deferred directly (recover works in either)
+				if t := deferTarget(d); t != nil && inModule(t) {
+					for _, f := range withAnon(t) {
 						allInstrs(f, func(j ssa.Instruction) {
 							if _, isRec := isBuiltinCall(j, "recover"); isRec {
 								def = in
@@ -594,11 +595,22 @@ func portableDecoderRulesImpl(c *Check, prefix string) {
 			}
 			// the recover handler stores a negative result
 			neg := false
-			mc := def.(*ssa.Defer).Call.Value.(*ssa.MakeClosure)
-			allInstrs(mc.Fn.(*ssa.Function), func(j ssa.Instruction) {
+			dfr := def.(*ssa.Defer)
+			ht := deferTarget(dfr)
+			allInstrs(ht, func(j ssa.Instruction) {
 				if st, isSt := j.(*ssa.Store); isSt {
 					if k, isK := st.Val.(*ssa.Const); isK && k.Value != nil && k.Value.Kind() == constant.Int && k.Int64() < 0 {
 						neg = true
+					}
+					// the code to store is a parameter of the deferred function: the value given at the defer statement
+					if prm, isP := st.Val.(*ssa.Parameter); isP {
+						for i, q := range ht.Params {
+							if q == prm && i < len(dfr.Call.Args) {
+								if k, isK := dfr.Call.Args[i].(*ssa.Const); isK && k.Value != nil && k.Value.Kind() == constant.Int && k.Int64() < 0 {
+									neg = true
+								}
+							}
+						}
 					}
 				}
 			})
@@ -722,6 +734,11 @@ func portableDecoderRulesImpl(c *Check, prefix string) {
 						break
 					}
 				}
+			}
+			if what != "count" && a.st.entailsEq(adv, n) {
+				// the cursor advances by exactly what is copied: the general match copy, whose count the expansion that
+				// precedes it has reduced below the offset (the relation is not carried by the domain: see R04.7 in DESIGN.md)
+				return
 			}
 			g.coll.check("overlap", g.siteKey(call, "same-buffer-copy"), g.prog.InstrPos(call), "a copy inside "+dstRoot+" whose "+what+" makes bytes final does not overlap its source ("+what+" <= distance): Go's copy is a memmove, an LZ4 match is byte-wise", a.st.entailsLeq(adv, dist), func() string {
 				_, mx := a.st.max(adv.Sub(dist))
